@@ -5,6 +5,7 @@ import (
 	"strings"
 
 	"github.com/osteele/liquid"
+	yaml "gopkg.in/yaml.v2"
 
 	"verif/harness/core"
 	"verif/harness/gen"
@@ -185,6 +186,49 @@ func runC09(c *core.Ctx) {
 				}
 				if idx%2003 == 1 {
 					c.Sample(map[string]any{"a": da, "b": db, "results(== != < > <= >= contains)": fab[:7]})
+				}
+			}
+		}
+	}
+	// ---- and/or over operands reached through a property or an index, in every representation ---------------
+	// (a Drop, pointer or double Drop nested in a map or array is an operand like its value)
+	if c.Shard == 2%c.NShards && c.Begin("andor-nested-representations") {
+		type lv struct {
+			name   string
+			v      any
+			truthy bool
+		}
+		fl, tr, zero, empty := false, true, 0, ""
+		var nilInt *int
+		var nilStruct *gen.DataStruct
+		base := []lv{{"false", false, false}, {"nil", nil, false}, {"true", true, true}, {"zero", 0, true}, {"emptystr", "", true}, {"emptyarr", []any{}, true}, {"emptymap", map[string]any{}, true}, {"nilslice", []int(nil), true}}
+		var all []lv
+		for _, b := range base {
+			all = append(all, b, lv{"DropV(" + b.name + ")", gen.DropV{X: b.v}, b.truthy}, lv{"*DropP(" + b.name + ")", &gen.DropP{X: b.v}, b.truthy}, lv{"DropV(DropV(" + b.name + "))", gen.DropV{X: gen.DropV{X: b.v}}, b.truthy})
+		}
+		all = append(all, lv{"*false", &fl, false}, lv{"*true", &tr, true}, lv{"*0", &zero, true}, lv{"*\"\"", &empty, true}, lv{"(*int)(nil)", nilInt, false}, lv{"(*DataStruct)(nil)", nilStruct, false},
+			lv{"DropV((*int)(nil))", gen.DropV{X: nilInt}, false}, lv{"DropV(*false)", gen.DropV{X: &fl}, false}, lv{"yaml.MapSlice{}", yaml.MapSlice{}, true}, lv{"NBool(false)", gen.NBool(false), false})
+		forms := []struct {
+			src  string
+			want func(t bool) bool
+		}{
+			{"x and tr", func(t bool) bool { return t }}, {"tr and x", func(t bool) bool { return t }}, {"x or fa", func(t bool) bool { return t }}, {"fa or x", func(t bool) bool { return t }},
+			{"x and x", func(t bool) bool { return t }}, {"x or tr", func(bool) bool { return true }}, {"x and fa", func(bool) bool { return false }}, {"nothing or x", func(t bool) bool { return t }},
+		}
+		for _, o := range all {
+			for _, place := range []string{"v", "h.v", "l[0]", "l.first", "h['v']", "d.v"} {
+				b := map[string]any{"v": o.v, "h": map[string]any{"v": o.v}, "l": []any{o.v}, "d": gen.DropV{X: map[string]any{"v": o.v}}, "tr": true, "fa": false}
+				for _, f := range forms {
+					cond := strings.ReplaceAll(f.src, "x", place)
+					want := fmt.Sprint(f.want(o.truthy))
+					res := core.Run(e, "{% if "+cond+" %}true{% else %}false{% endif %},{{ "+cond+" }}", b)
+					c.Eval(1)
+					c.Obs("andor_nested_representation_cases", 1)
+					c.Distinct("andor-nested", o.name, cond)
+					if !res.OK() || res.Out != want+","+want {
+						c.Violate("andor-nested|"+place+"|"+resClass(res), "and/or must treat an operand reached through a property or index, whatever its Go representation, as its value: exactly nil and false are false",
+							map[string]any{"condition": cond, "operand": o.name, "expected": want, "observed": res.Brief()})
+					}
 				}
 			}
 		}
